@@ -58,7 +58,6 @@ class O2JToSM(ConvertBase):
         sms = SMMapSet()
 
         for o2j in o2js:
-            sms = SMMapSet()
             sm = SMMap()
             sm.hits = cls.cast(
                 o2j.hits, SMHitList, dict(offset="offset", column="column")
